@@ -233,7 +233,8 @@ def _flat_set(x):
     if x is None:
         return set()
     elif isinstance(x, set):
-        return x
+        # A copy: inline() adds the constants and aliases of the graph to it
+        return set(x)
     elif not isinstance(x, (list, set)):
         x = [x]
     return set(x)
